@@ -16,7 +16,7 @@ for f in pk:
             cur = None
         if cur and re.match(r'//@\s+(ensures|loop \d+\s+ensures)', l):
             ens[cur] += 1
-none = sorted(k.split('::')[1] for k in shape if k not in ens)
+none = sorted(k.split("::")[1] for k in shape if k not in ens and not k.startswith("struct::"))
 thin = sorted(k.split('::')[1] for k, v in ens.items() if v == 0)
 print(len(shape), 'functions;', len(ens), 'with a contract;', len(none), 'without;', len(thin), 'with a contract but no postcondition')
 print('NO CONTRACT:', ', '.join(none))
